@@ -15,6 +15,7 @@ ASSUMPTIONS = [
     "inputs are chosen among cells that have a dependant leading to a chosen output (trim_graph raises "
     "ValueError for the others by design); values written to the inputs come from the clean pool",
     "the save/load leg goes through yml, json or pkl files in the check's work directory",
+    "unbounded row/column ranges are outside coq/Model/Trim.v: that stream is judged by the oracle alone",
 ]
 
 
@@ -26,6 +27,18 @@ ASSUMPTIONS = [
 @known_predicate('C08-range-input')
 def _range_input(case):
     return case.get('call') == 'trim-range-input'
+
+
+# Found by the unbounded-range stream on the tree with repair 17855a0: trim_graph BEFORE the first evaluation keeps
+# the reference cell S!B:B (value not computed yet) but deletes the bounded range S!B1:B4 it stands for when no input
+# is below that range; _evaluate_range then reads `.value` of a missing cell.  The loaded legs are fine (from_file
+# rebuilds the range), a trim after the first evaluation is fine (S!B:B holds its value).
+#   A1=1, B1=2, B2=5, D4==SUM(B:B)+A1; ExcelCompiler(...).trim_graph(['S!A1'], ['S!D4']); evaluate('S!D4')
+#   -> FormulaEvalError (AttributeError: 'NoneType' object has no attribute 'value'), untrimmed 8
+@known_predicate('C08-unbounded-early-trim-direct')
+def _unbounded_early(case):
+    return (case.get('call') == 'trim-unbounded' and case.get('leg') == 'trimmed' and case.get('early') is True
+            and bool(case.get('independent_ranges')) and case.get('raises') == 'FormulaEvalError')
 
 
 def ancestors(wb, n):
@@ -49,7 +62,13 @@ def run(ctx):
         "range) and input set (1-3 cells among the outputs' ancestors: leaf inputs and buried formula cells) — "
         "exhaustive over single inputs/outputs for small workbooks, sampled beyond — x 3 rounds of re-assignment "
         "of every input from the value pool; compared: untrimmed, trimmed, trimmed+saved+loaded (yml/json/pkl), "
-        "trimmed before vs after the first evaluate; distinct = distinct (workbook, inputs, outputs)")
+        "trimmed before vs after the first evaluate; distinct = distinct (workbook, inputs, outputs). "
+        "Unbounded-range stream (oracle only): sheets with columns A, B (constants; B also formulas over A / the B "
+        "cell above) and outputs in column D reading whole columns or rows (=SUM(B:B)+A1, A:B, 2:3, chained "
+        "outputs), inputs among the constants the outputs read, so that the unbounded range is independent of the "
+        "inputs or contains one; untrimmed vs trimmed vs trimmed+saved+loaded through yml, json AND pkl, 3 "
+        "assignment rounds; the untrimmed model is also compared with a fresh compile of the workbook holding the "
+        "values written so far")
     nwb = ctx.n(200, 2000)
     model_batch = []
     refused_batch = []
@@ -181,7 +200,188 @@ def run(ctx):
                               impl=b, expected=a)
         except Exception as exc:      # noqa: BLE001
             ctx.violation(case, f"trim with a range input raises {type(exc).__name__}: {exc}"[:200])
+    unbounded_stream(ctx, ExcelCompiler)
     shutil.rmtree(ctx.work, ignore_errors=True)
+
+
+# ------------------------------------------------------------------ unbounded row / column ranges
+UNB_VALUES = [1, 2, 3, 5, 7, 10, -4, 12, 100, 0]
+
+
+def unbounded_stream(ctx, ExcelCompiler):
+    """Outputs that read whole columns / rows (B:B, A:B, 2:2).  Sheet S: columns A and B, rows 1..n, hold constants
+    and (in B) formulas over A or over the B cell above; the outputs live in column D below row n, so that no
+    unbounded range contains its own reader.  Inputs are constants of A and B: the unbounded range of an output
+    may be independent of every input (=SUM(B:B)+A1, input A1) or contain one (B2 an input too / B2 = A1*2).
+    Legs: untrimmed, trimmed (before / after the first evaluate), trimmed + saved + loaded through yml, json AND
+    pkl; 3 rounds of assignment of every input.  Oracle: every leg = untrimmed; and untrimmed = a fresh compile of
+    the workbook holding the assigned values (a write to a member of A:A must reach =SUM(A:A))."""
+    import openpyxl
+    rng = ctx.rng
+    for k in range(ctx.n(40, 400)):
+        n = rng.randrange(2, 5)
+        cells = {}
+        for r in range(1, n + 1):
+            cells[f'A{r}'] = rng.choice(UNB_VALUES) if rng.random() < 0.9 else rng.choice(['text', None])
+        shape = k % 4          # 0: B all constants, inputs in A only; 1: a constant of B is an input; 2, 3: free
+        for r in range(1, n + 1):
+            p = rng.random()
+            if shape in (0, 1) or p < 0.5:
+                cells[f'B{r}'] = rng.choice(UNB_VALUES)
+            elif p < 0.7:
+                cells[f'B{r}'] = f'=A{rng.randrange(1, n + 1)}*2'
+            elif p < 0.85 or r == 1:
+                cells[f'B{r}'] = f'=A{rng.randrange(1, n + 1)}+A{rng.randrange(1, n + 1)}'
+            else:
+                cells[f'B{r}'] = f'=B{r - 1}+1'
+        outs = []
+        for j in range(rng.randrange(1, 4)):
+            ra, rb = rng.randrange(1, n + 1), rng.randrange(1, n + 1)
+            t = rng.choice([f'=SUM(B:B)+A{ra}', f'=SUM(B:B)+A{ra}', '=SUM(B:B)', '=SUM(A:A)*2', '=MAX(A:B)',
+                            f'=COUNT(B:B)+A{ra}', f'=SUM({ra}:{ra})', f'=SUM({ra}:{rb})+A{rb}' if ra <= rb else
+                            f'=SUM({rb}:{ra})+A{rb}', f'=SUM(A:B)-B{rb}', f'=MIN(B:B)&"x"', f'=AVERAGE(A:A)+B{rb}'])
+            if j == 0 and shape in (0, 1):
+                t = f'=SUM(B:B)+A{ra}'
+            if j and rng.random() < 0.3:
+                t += f'+D{n + 1 + j}'
+            cells[f'D{n + 2 + j}'] = t
+            outs.append(f'S!D{n + 2 + j}')
+        n_out = rng.randrange(1, len(outs) + 1)
+        out_addrs = rng.sample(outs, n_out)
+        anc = _unb_precedents(cells, out_addrs)
+        consts = [a for a in sorted(anc) if a[0] in 'AB' and not (isinstance(cells[a], str) and cells[a].startswith('='))]
+        a_consts = [a for a in consts if a[0] == 'A']
+        b_consts = [a for a in consts if a[0] == 'B']
+        if shape == 0 and a_consts:
+            ins = rng.sample(a_consts, rng.randrange(1, min(2, len(a_consts)) + 1))
+        elif shape == 1 and a_consts and b_consts:
+            ins = [rng.choice(a_consts), rng.choice(b_consts)]
+        else:
+            ins = rng.sample(consts, rng.randrange(1, min(3, len(consts)) + 1))
+        in_addrs = [f'S!{a}' for a in ins]
+        desc = [(f'S!{a}', None, v) if isinstance(v, str) and v.startswith('=') else (f'S!{a}', v, None)
+                for a, v in cells.items()]
+        indep = _unb_independent(cells, ins, out_addrs)
+        case = dict(call='trim-unbounded', workbook=desc, args=[in_addrs, out_addrs], independent_ranges=indep)
+        early = rng.random() < 0.5
+
+        def build(values=None):
+            owb = openpyxl.Workbook()
+            ws = owb.active
+            ws.title = 'S'
+            for a, v in cells.items():
+                v = (values or {}).get(a, v)
+                if v is not None:
+                    ws[a] = v
+            return owb
+        try:
+            full = ExcelCompiler(excel=build())
+            trimmed = ExcelCompiler(excel=build())
+            if not early:
+                for o in out_addrs:
+                    trimmed.evaluate(o)
+            trimmed.trim_graph(in_addrs, out_addrs)
+        except ValueError:
+            ctx.histogram['unbounded-refused'] = ctx.histogram.get('unbounded-refused', 0) + 1
+            continue
+        except Exception as exc:      # noqa: BLE001
+            ctx.violation(case, f"trim_graph raises {type(exc).__name__}: {exc}"[:200])
+            continue
+        ctx.count(('unbounded', k), kind='trim-unbounded:' + ('a range independent of the inputs' if indep else
+                                                               'every range depends on the inputs'),
+                  sample=dict(case, early=early))
+        legs = [('untrimmed', full), ('trimmed', trimmed)]
+        for ext in ('yml', 'json', 'pkl'):
+            stem = os.path.join(ctx.work, f'unb{k}_{ext}_m')     # not ending in an extension name
+            try:
+                trimmed.to_file(stem, file_types=(ext,))
+                legs.append((f'loaded:{ext}', ExcelCompiler.from_file(stem + '.' + ext)))
+            except Exception as exc:      # noqa: BLE001
+                ctx.violation(dict(case, leg='save/load', format=ext, early=early),
+                              f"save/load of the trimmed model raises {type(exc).__name__}: {exc}"[:200])
+            for f in os.listdir(ctx.work):
+                if f.startswith(f'unb{k}_{ext}'):
+                    os.remove(os.path.join(ctx.work, f))
+        current = {}
+        for rnd in range(3):
+            assign = {a: (rng.choice(UNB_VALUES) if rng.random() < 0.92 else 'text') for a in ins} if rnd else {}
+            current.update(assign)
+            shown = {f'S!{a}': v for a, v in assign.items()}
+            res = {}
+            for name, comp in legs:
+                try:
+                    for a, v in assign.items():
+                        if name == 'untrimmed' and f'S!{a}' not in comp.cell_map:
+                            comp.evaluate(f'S!{a}')
+                        comp.set_value(f'S!{a}', v)
+                    res[name] = [canon(comp.evaluate(o)) for o in out_addrs]
+                except Exception as exc:      # noqa: BLE001
+                    res[name] = f'{type(exc).__name__}: {exc}'[:120]
+            try:
+                fresh = ExcelCompiler(excel=build(current))
+                res['fresh'] = [canon(fresh.evaluate(o)) for o in out_addrs]
+            except Exception as exc:      # noqa: BLE001
+                res['fresh'] = f'{type(exc).__name__}: {exc}'[:120]
+            if res['untrimmed'] != res['fresh']:
+                ctx.violation(dict(case, leg='untrimmed', round=rnd, assign=shown, values=dict(current)),
+                              "outputs of the untrimmed model differ from a fresh compile of the workbook holding the "
+                              "values written so far", impl=res['untrimmed'], expected=res['fresh'])
+            for name, _ in legs[1:]:
+                if res[name] != res['untrimmed']:
+                    raises = {'raises': res[name].split(':')[0]} if isinstance(res[name], str) else {}
+                    ctx.violation(dict(case, leg=name, early=early, round=rnd, assign=shown, values=dict(current), **raises),
+                                  f"outputs of the {name.split(':')[0]} model differ from the untrimmed model",
+                                  impl=res[name], expected=res['untrimmed'])
+
+
+def _unb_precedents(cells, out_addrs):
+    """cells of the sheet (blank ones excluded) that the given outputs read, directly or not"""
+    import re as _re
+    todo, seen = [o.split('!')[1] for o in out_addrs], set()
+    while todo:
+        o = todo.pop()
+        if o in seen or o not in cells:
+            continue
+        seen.add(o)
+        text = cells[o]
+        if not (isinstance(text, str) and text.startswith('=')):
+            continue
+        todo.extend(_re.findall(r'[ABD]\d+', text))
+        for c1, c2 in _re.findall(r'\b([AB]):([AB])\b', text):
+            todo.extend(a for a in cells if c1 <= a[0] <= c2)
+        for r1, r2 in _re.findall(r'(?<![A-Z\d])(\d+):(\d+)\b', text):
+            todo.extend(a for a in cells if int(r1) <= int(a[1:]) <= int(r2))
+    return seen - {o.split('!')[1] for o in out_addrs}
+
+
+def _unb_independent(cells, ins, out_addrs):
+    """the unbounded ranges read by the chosen outputs (directly or through another output) that contain neither an
+    input nor a cell computed from one"""
+    import re as _re
+    below = set(ins)
+    changed = True
+    while changed:
+        changed = False
+        for a, v in cells.items():
+            if a not in below and isinstance(v, str) and v.startswith('=') and a[0] in 'AB' and \
+                    any(ref in below for ref in _re.findall(r'[AB]\d+', v)):
+                below.add(a)
+                changed = True
+    todo, seen, out = [o.split('!')[1] for o in out_addrs], set(), []
+    while todo:
+        o = todo.pop()
+        if o in seen:
+            continue
+        seen.add(o)
+        text = cells[o]
+        todo.extend(_re.findall(r'D\d+', text))
+        for c1, c2 in _re.findall(r'\b([AB]):([AB])\b', text):
+            if not any(c1 <= a[0] <= c2 for a in below) and f'{c1}:{c2}' not in out:
+                out.append(f'{c1}:{c2}')
+        for r1, r2 in _re.findall(r'(?<![A-Z\d])(\d+):(\d+)\b', text):
+            if not any(int(r1) <= int(a[1:]) <= int(r2) for a in below) and f'{r1}:{r2}' not in out:
+                out.append(f'{r1}:{r2}')
+    return sorted(out)
 
 
 def model_value(x):
